@@ -61,6 +61,7 @@ func siteKey(p *Prog, in ssa.Instruction, what string, counter map[string]int) s
 func runC03(c *Ctx) {
 	sharedDigestRule(c, c.P, "R8", "transports/obfs4")
 	serverHandlerReachesWrapConn(c, c.P, "R9")
+	wholeInputJudged(c, c.P, "R9", "transports/obfs4:(*serverHandshake).parseClientHandshake")
 	if !importing {
 		importObls(c, "C10", runC10, "X10", func(k string) bool {
 			return containsAny(k, "(*obfs4Conn).serverHandshake", "parseClientHandshake", "WrapConn", "closeAfterDelay", "lock-pairing")
